@@ -58,6 +58,16 @@ proof fn lemma_pair_must(rtext: &TextRef, qtext: &TextRef, j: int)
         if pair_prefix(rtext, qtext, j) { assert(prefix_case(&rv, &qv)); } else { assert(equal_case(&rv, &qv)); }
     }
 }
+proof fn lemma_edit_must(rtext: &TextRef, qtext: &TextRef, j: int, p: int)
+    requires text_wf(rtext), text_wf(qtext), text_small(rtext), text_small(qtext), pair_edit1(rtext, qtext, j, p),
+    ensures must_pair(rtext, qtext, j),
+{
+    assert forall|rv: WordView, qv: WordView| view_of(&rv, rtext, j) && view_of(&qv, qtext, 0) implies #[trigger] must_match(&rv, &qv) by {
+        assert(rv.vchars() == tchars(rtext, j)); assert(qv.vchars() == tchars(qtext, 0));
+        lemma_view_wfs(&rv, rtext, j); lemma_view_wfs(&qv, qtext, 0);
+        lemma_c04_word(&rv, &qv, p);
+    }
+}
 proof fn lemma_wf_for_slot(m: WordMatch, v: &WordView, t: &TextRef, k: int)
     requires m.wf_for(v), view_of(v, t, k), match_ok2(m)
     ensures slot_ok(m, t, k)
@@ -89,12 +99,16 @@ pub fn text_match(rtext: &TextRef, qtext: &TextRef, tls: &mut Tls, tlsm: &mut Tl
         qtext.words@.len() == 0 ==> ret.0@.len() == 0 && ret.1@.len() == 0, // [C09 C12]
         // TM-some (C03 C04 C13): a record word that the first query word must match gives the record at least one match
         (exists|j: int| #[trigger] must_pair(rtext, qtext, j)) ==> ret.0@.len() >= 1, // [C03 C04 C13]
-        tm_some(rtext, qtext, ret), // [C03 C13]
+        tm_some(rtext, qtext, ret), // [C03 C04 C13]
 {
     proof {
         if exists|j: int| #[trigger] pair_prefix(rtext, qtext, j) || pair_equal(rtext, qtext, j) {
             let j = choose|j: int| #[trigger] pair_prefix(rtext, qtext, j) || pair_equal(rtext, qtext, j);
             lemma_pair_must(rtext, qtext, j);
+        }
+        if exists|j: int, p: int| #[trigger] pair_edit1(rtext, qtext, j, p) {
+            let (j, p) = choose|j: int, p: int| #[trigger] pair_edit1(rtext, qtext, j, p);
+            lemma_edit_must(rtext, qtext, j, p);
         }
     }
     let ghost need: bool = exists|j: int| #[trigger] must_pair(rtext, qtext, j);
